@@ -39,8 +39,8 @@ theorem rel_appendManifest {p : PState} (h : Rel p) (e : Edit) (s' : State) (c' 
       ∀ q, q ∈ versionOf (es ++ [e]) ↔ InVersion s'.levels q)
     (htab : ∀ l f, f ∈ lv s'.levels l → lookup p.d.tables f.num = some f.entries)
     (hmem : s'.mem = p.s.mem)
-    (hcase : (e.walNumber = none ∧ c'.immWal = p.c.immWal ∧ s'.imm = p.s.imm) ∨
-             (e.walNumber = some p.c.wal ∧ c'.immWal = none ∧ s'.imm = none)) :
+    (hcase : (e.walNumber = none ∧ c'.immWal = p.c.immWal ∧ s'.imm = p.s.imm ∧ c'.manWal = p.c.manWal) ∨
+             (e.walNumber = some p.c.wal ∧ c'.immWal = none ∧ s'.imm = none ∧ c'.manWal = p.c.wal)) :
     ok p.d (.appendManifest p.c.manifest e) = true ∧
       Rel { s := s', d := apply p.d (.appendManifest p.c.manifest e), c := c' } := by
   obtain ⟨es, hes, hwn, _⟩ := h.edits
@@ -50,16 +50,17 @@ theorem rel_appendManifest {p : PState} (h : Rel p) (e : Edit) (s' : State) (c' 
     simp only [Option.getD_some]
     refine { inv := hinv', wf := ⟨nodup_update _ _ _ h.wf.1, h.wf.2.1, h.wf.2.2⟩,
              cur := by show p.d.current = some c'.manifest; rw [hman]; exact h.cur,
-             edits := ?_, tables := htab, walMem := ?_, walImm := ?_, others := ?_, walMax := ?_ }
+             edits := ?_, tables := htab, walMem := ?_, walImm := ?_, others := ?_, walMax := ?_,
+             manLe := ?_ }
     · refine ⟨es ++ [e], ?_, ?_, hver es hes⟩
       · show lookup (update p.d.manifests p.c.manifest (es ++ [e])) c'.manifest = _
         rw [hman, lookup_update, if_pos rfl]
-      · rcases hcase with ⟨h1, h2, _⟩ | ⟨h1, h2, _⟩
-        · rw [walNoOf_snoc_none es e h1, hwn]; simp [Ctx.w0, h2, hwal]
-        · rw [walNoOf_snoc_some es e _ h1]; simp [Ctx.w0, h2, hwal]
+      · rcases hcase with ⟨h1, _, _, h4⟩ | ⟨h1, _, _, h4⟩
+        · rw [walNoOf_snoc_none es e h1, hwn, h4]
+        · rw [walNoOf_snoc_some es e _ h1, h4]
     · obtain ⟨bs, hl, hm⟩ := h.walMem
       exact ⟨bs, by show lookup p.d.wals c'.wal = _; rw [hwal]; exact hl, by rw [hmem]; exact hm⟩
-    · rcases hcase with ⟨_, h2, h3⟩ | ⟨_, h2, h3⟩
+    · rcases hcase with ⟨_, h2, h3, _⟩ | ⟨_, h2, h3, _⟩
       · rcases h.walImm with ⟨ha, hb⟩ | ⟨wi, im, bs, hwi, him, hlt, hl, hm⟩
         · exact Or.inl ⟨by rw [h2]; exact ha, by rw [h3]; exact hb⟩
         · exact Or.inr ⟨wi, im, bs, by rw [h2]; exact hwi, by rw [h3]; exact him,
@@ -67,11 +68,11 @@ theorem rel_appendManifest {p : PState} (h : Rel p) (e : Edit) (s' : State) (c' 
       · exact Or.inl ⟨h2, h3⟩
     · intro x hx
       have hx' : x ∈ p.d.wals := hx
-      rcases hcase with ⟨_, h2, _⟩ | ⟨_, h2, _⟩
+      rcases hcase with ⟨_, h2, _, h4⟩ | ⟨_, h2, _, h4⟩
       · rcases h.others x hx' with h1 | h1 | h1 | h1
         · exact Or.inl (by rw [hwal]; exact h1)
         · exact Or.inr (Or.inl (by rw [h2]; exact h1))
-        · exact Or.inr (Or.inr (Or.inl (by simpa [Ctx.w0, h2, hwal] using h1)))
+        · exact Or.inr (Or.inr (Or.inl (by rw [h4]; exact h1)))
         · exact Or.inr (Or.inr (Or.inr h1))
       · rcases h.others x hx' with h1 | h1 | h1 | h1
         · exact Or.inl (by rw [hwal]; exact h1)
@@ -79,14 +80,20 @@ theorem rel_appendManifest {p : PState} (h : Rel p) (e : Edit) (s' : State) (c' 
           rcases h.walImm with ⟨ha, _⟩ | ⟨wi, _, _, hwi, _, hlt, _, _⟩
           · rw [ha] at h1; cases h1
           · rw [hwi] at h1; injection h1 with h1
-            simp [Ctx.w0, h2, hwal]; omega
+            rw [h4]; omega
         · right; right; left
-          simp [Ctx.w0, h2, hwal]; omega
+          have := h.manLe
+          rw [h4]; omega
         · exact Or.inr (Or.inr (Or.inr h1))
     · intro x hx
       have hx' : x ∈ p.d.wals := hx
       show x.1 ≤ c'.wal ∨ x.2 = []
       rw [hwal]; exact h.walMax x hx'
+    · rcases hcase with ⟨_, h2, _, h4⟩ | ⟨_, h2, _, h4⟩
+      · have := h.manLe
+        simp only [Ctx.w0, h2, hwal, h4] at this ⊢
+        exact this
+      · simp [Ctx.w0, h2, hwal, h4]
   refine ⟨?_, hR⟩
   obtain ⟨r, hr, hl⟩ := rel_reads h
   obtain ⟨r', hr', hl'⟩ := rel_reads hR
